@@ -1844,8 +1844,20 @@ func (comp *Compiler) makeEnumeration(
 	return schema.NewEnumeration(name, enums, def, hasDef)
 }
 
+// owningModuleName is the name of the module a data node belongs to: the
+// module that uses the grouping the node comes from and, for a statement
+// written in a submodule, the module the submodule belongs to.
+func owningModuleName(n parse.Node) string {
+	if r := n.UsesRoot(); r != nil && r.Type() == parse.NodeSubmodule {
+		if bt := r.ChildByType(parse.NodeBelongsTo); bt != nil {
+			return bt.Name()
+		}
+	}
+	return n.GetNodeModulename(n.Root())
+}
+
 func (c *Compiler) identityValues(cfgNode, node parse.Node, ident parse.Node, rt []*schema.Identity) []*schema.Identity {
-	strp := cfgNode.GetNodeModulename(cfgNode.Root()) + ":"
+	strp := owningModuleName(cfgNode) + ":"
 
 	for _, id := range ident.ChildrenByType(parse.NodeIdentity) {
 		nm := id.Root().Name() + ":" + id.Name()
